@@ -41,6 +41,7 @@ func genScript(t *rapid.T, g scriptGenOpts) Script {
 	s.RegAllBidi = rapid.IntRange(0, 5).Draw(t, "regallbidi") == 0
 	s.OneRecv = rapid.IntRange(0, 2).Draw(t, "onerecv") == 0
 	s.PreSendHdr = rapid.IntRange(0, 4).Draw(t, "presendhdr") == 0
+	s.SrvInt = rapid.IntRange(0, 3).Draw(t, "srvint") == 0
 	s.SlowFinish = !s.Chunked && rapid.IntRange(0, 3).Draw(t, "slowfinish") == 0
 	s.Wrap = rapid.SampledFrom([]string{"", "", "", "", "u", "s", "us"}).Draw(t, "wrap")
 	s.Chunked = rapid.IntRange(0, 4).Draw(t, "chunked") == 0
